@@ -372,16 +372,19 @@ OPTION_SPACE = [
     ('max_summary_len_for_str', [80, 12, 0, 200]),
     ('enable_summary_tooltip', [True, False]),
     ('enable_key_tooltip', [True, False]),
-    ('key_style', ['summary', 'label']),
-    ('include_keys', [None, 'some', 'none', 'all+absent']),
-    ('exclude_keys', [None, 'some', 'all']),
+    ('key_style', ['summary', 'label', 'fn']),
+    ('include_keys', [None, 'some', 'none', 'all+absent', 'fn']),
+    ('exclude_keys', [None, 'some', 'all', 'fn']),
     ('collapse_level', [1, None, 0, 2, -1]),
-    ('uncollapse', [None, 'one', 'deep']),
+    ('uncollapse', [None, 'one', 'deep', 'fn']),
     ('name', [None, 'hostile', 'int', 'plain']),
     ('root_path', [None, 'hostile']),
     ('css_classes', [None, ['my-class'], ['c1', 'simple-value', 'c1', 'pyglove']]),
-    ('summary_color', [None, ('red', None), ('#fff', 'rgb(1, 2, 3)')]),
-    ('key_color', [None, (None, 'blue'), ('white', 'darkblue')]),
+    ('summary_color', [None, ('red', None), ('#fff', 'rgb(1, 2, 3)'), 'fn']),
+    ('key_color', [None, (None, 'blue'), ('white', 'darkblue'), 'fn']),
+    ('highlight', [None, 'fn']),
+    ('lowlight', [None, 'fn']),
+    ('extra_flags', [None, dict(hide_default_values=True), dict(hide_frozen=False, use_inferred=True)]),
 ]
 DEFAULTS = {k: v[0] for k, v in OPTION_SPACE}
 
@@ -417,30 +420,49 @@ def all_paths(value, prefix=()):
     out.extend(all_paths(v, prefix + (k,)))
   return out
 
+def path_pred(salt, mod=3):
+  """A deterministic callback (path, value, parent) -> bool that depends on all three."""
+  # (sentinel numbers, not the characters of the keys: the data-independence twin has the same numbering but other characters)
+  return lambda k, v, p: (sum(int(m[2:-1]) for m in SENT_RE.findall(str(k))) + len(k) + (3 if isinstance(v, str) else 5 if isinstance(v, (dict, list, tuple)) else 0)
+                          + (7 if isinstance(p, (list, tuple)) else 0) + salt) % mod == 0
+
 def resolve_options(sym, value, rng, data):
   """Turns symbolic choices into concrete to_html_str keyword arguments + the model's option record."""
   from pyglove.core import utils
   kw = {}
   items = child_items(value) or []
   keys = [k for k, _ in items]
+  salt = rng.randrange(100)
   for name in ('enable_summary', 'enable_summary_for_str', 'max_summary_len_for_str', 'enable_summary_tooltip', 'enable_key_tooltip', 'key_style', 'collapse_level',
-               'css_classes', 'summary_color', 'key_color'):
-    if sym[name] != DEFAULTS[name] or rng.random() < 0.3:
-      kw[name] = sym[name]
+               'css_classes', 'summary_color', 'key_color', 'highlight', 'lowlight', 'extra_flags'):
+    if name not in sym:
+      continue
+    if sym[name] == 'fn':
+      pr = path_pred(salt + len(name))
+      kw[name] = ((lambda pr: lambda k, v, p: 'label' if pr(k, v, p) else 'summary')(pr) if name == 'key_style' else
+                  (lambda pr: lambda k, v, p: ('red', None) if pr(k, v, p) else (None, 'silver') if isinstance(v, str) else (None, None))(pr) if name in ('summary_color', 'key_color') else
+                  path_pred(salt + len(name), 2 if name in ('highlight', 'lowlight') else 3))
+    elif sym[name] != DEFAULTS[name] or rng.random() < 0.3:
+      if sym[name] is not None or name not in ('highlight', 'lowlight', 'extra_flags'):
+        kw[name] = sym[name]
   root = []
   if sym['root_path'] == 'hostile':
     root = [data.s('root-path-key'), rng.choice([0, 2]), data.s('root-path-key')][:rng.randint(1, 3)]
     kw['root_path'] = utils.KeyPath(list(root))
   inc = sym['include_keys']
-  if inc == 'some': kw['include_keys'] = [k for k in keys if rng.random() < 0.6][::rng.choice([1, -1])]
+  if inc == 'fn': kw['include_keys'] = (lambda pr: lambda k, v, p: not pr(k, v, p))(path_pred(salt + 1, 4))
+  elif inc == 'some': kw['include_keys'] = [k for k in keys if rng.random() < 0.6][::rng.choice([1, -1])]
   elif inc == 'none': kw['include_keys'] = []
   elif inc == 'all+absent': kw['include_keys'] = list(keys) + ['absent<b>', 99] + keys[:1]
   exc = sym['exclude_keys']
-  if exc == 'some': kw['exclude_keys'] = [k for k in keys if rng.random() < 0.4] + ['absent']
+  if exc == 'fn': kw['exclude_keys'] = path_pred(salt + 2, 4)
+  elif exc == 'some': kw['exclude_keys'] = [k for k in keys if rng.random() < 0.4] + ['absent']
   elif exc == 'all': kw['exclude_keys'] = list(keys)
   unc = sym['uncollapse']
   paths = all_paths(value)
-  if unc and paths:
+  if unc == 'fn':
+    kw['uncollapse'] = path_pred(salt + 3, 2)
+  elif unc and paths:
     chosen = [rng.choice(paths)] if unc == 'one' else [max(paths, key=len), rng.choice(paths)]
     chosen = [c for c in chosen if '$' not in c]
     kw['uncollapse'] = [utils.KeyPath(root + list(c)) for c in chosen]
